@@ -17,6 +17,8 @@ QuickMaxes == {"all", "one"}
 FullMethods == {"auto", "average", "majority", "stride"}
 QuickMethods == {"auto", "majority"}
 FullShardings == {"nosh", "s110"}
+FullCodes == {"RPI", "LIP"}
+QuickCodes == {"RPI"}
 FullCfg == {[perfect |-> p, nall |-> k] : p \in BOOLEAN, k \in {1, 2, 3}}
 MidCfg == {[perfect |-> TRUE, nall |-> 3], [perfect |-> FALSE, nall |-> 2]}
 QuickCfg == {[perfect |-> TRUE, nall |-> 3]}
